@@ -1,5 +1,6 @@
 import SparkxVerif.Core.Proto
 import SparkxVerif.Core.Bulk
+import SparkxVerif.Gen.Bulk
 
 /-! driver ops for C14 (all floats as bit patterns; `-` = NaN / unset; `.` = event without particles;
 `none` in the events field = no event at all):
@@ -7,6 +8,10 @@ import SparkxVerif.Core.Bulk
   `yield <w> <ev>|<ev>|...`           ev = `y,x;y,x;...`     -> `ok <model> <spec>` | `err value`
   `mean  <w> <ev>|<ev>|...`                                  -> `ok <model> <spec>` | `err value`
   `meanold <w> <evs>`                 the loop before the repair -> `ok <v>` | `err index|zerodiv|value`
+  `gdndx <edges> <evs>`               the function GENERATED from `_differential_yield` (Gen/Bulk.lean)
+                                                              -> `ok <row>|<row>|...` (`histograms_`) | `err ...`
+  `gyield|gmeanpt|gmeanmt <w> <evs>`  the functions GENERATED from `mid_rapidity_yield / mean_pT / mean_mT`
+                                                              -> `ok <v>` | `err ...`
 The spec column of `dndx` is `-` when some quantity is NaN (the specification speaks about numbers only).
 -/
 namespace SparkxVerif.Drv.C14
@@ -70,6 +75,25 @@ def handle : List String → String
       | .ok v => s!"ok {floatToHex v}"
       | .error e => showErr e
     | _, _ => "bad-op"
+  | ["gdndx", edges, evs] =>
+    match floatList? edges, events? event? evs with
+    | some es, some evs =>
+      match Gen.Bulk.differentialYield es evs with
+      | .ok rows => "ok " ++ "|".intercalate (rows.map showFloats)
+      | .error e => showErr e
+    | _, _ => "bad-op"
+  | [op, w, evs] =>
+    let f? : Option (Float → List (List (Option Float × Float)) → Except Err Float) :=
+      if op == "gyield" then some Gen.Bulk.midYield
+      else if op == "gmeanpt" then some Gen.Bulk.midMeanPT
+      else if op == "gmeanmt" then some Gen.Bulk.midMeanMT
+      else none
+    match f?, floatOfHex? w, events? pevent? evs with
+    | some f, some w, some evs =>
+      match f w evs with
+      | .ok v => s!"ok {floatToHex v}"
+      | .error e => showErr e
+    | _, _, _ => "bad-op"
   | _ => "bad-op"
 
 end SparkxVerif.Drv.C14
